@@ -30,10 +30,16 @@ impl Family for C09 {
       1 => {}
       _ => script.push(Step::C),
     }
+    let source = *rng.pick(&["cold", "threaded", "threaded-checking", "threaded", "subject"]);
+    let shape = if source == "subject" { *rng.pick(&["oo", "oo,oo", "m,oo", "oo,m", "m,oo,m,oo"]) } else { *rng.pick(SHAPES) };
     Json::obj(vec![
       ("script", script_to_json(&script)),
-      ("source", Json::str(*rng.pick(&["cold", "threaded", "threaded-checking"]))),
-      ("shape", Json::str(*rng.pick(SHAPES))),
+      // "subject": a real Subject fed by the caller; the subscriber's callback of item `reenter_at`
+      // feeds the same Subject again from the worker thread (one more item, or the terminal)
+      ("source", Json::str(source)),
+      ("reenter_at", Json::Int(rng.below(3) as i64)),
+      ("reenter_do", Json::str(*rng.pick(&["emit", "emit", "complete"]))),
+      ("shape", Json::str(shape)),
       ("unsub_after_probes", Json::Int(if rng.below(3) == 0 { rng.below(12) as i64 } else { -1 })),
       ("cb_probes", Json::Int(rng.below(3) as i64)),
       ("resubscribe", Json::Bool(rng.below(4) == 0)),
@@ -64,8 +70,11 @@ impl Family for C09 {
       return RunOut::invalid();
     }
     let source_mode = w.s("source");
-    if !["cold", "threaded", "threaded-checking"].contains(&source_mode.as_str()) {
+    if !["cold", "threaded", "threaded-checking", "subject"].contains(&source_mode.as_str()) {
       return RunOut::invalid();
+    }
+    if source_mode == "subject" {
+      return exec_subject(w, cfg, &script, &shape);
     }
     let unsub_after = w.i("unsub_after_probes");
     let gaps_ns: Vec<u64> = w.a("gaps_ms").iter().map(|x| x.as_i64().unwrap_or(0).clamp(0, 10_000) as u64 * 1_000_000).collect();
@@ -243,4 +252,157 @@ impl Family for C09 {
     ];
     RunOut { res, violations: v, fingerprint: fp, invalid: false, reach, history }
   }
+}
+
+
+/// Subject source, re-entrant subscriber (see `gen`). Oracle: the caller's items arrive in the
+/// caller's order, the item fed from inside the callback arrives once and after the item whose
+/// callback fed it, everything pushed completely before a (re-entrant) terminal call started is
+/// delivered before the terminal, callbacks never overlap and all run on one worker.
+fn exec_subject(w: &Json, cfg: RunCfg, script: &[Step], shape: &[String]) -> RunOut {
+  const EXTRA: i64 = 99;
+  let reenter_at = w.i("reenter_at");
+  let reenter_do = w.s("reenter_do");
+  if reenter_at < 0 || reenter_at > 12 || !["emit", "complete"].contains(&reenter_do.as_str()) {
+    return RunOut::invalid();
+  }
+  // the last stage must be observe_on (otherwise callbacks run on the emitting thread by definition)
+  if shape.iter().rev().find(|s| *s != "m").map(|s| s.as_str()) != Some("oo") || shape.iter().any(|s| s == "so") {
+    return RunOut::invalid();
+  }
+  let n_maps = shape.iter().filter(|s| *s == "m").count() as i64;
+  let mut rec = Recorder::with_probes(w.i("cb_probes").clamp(0, 3) as u32);
+  // (item or -1 for the terminal, seq before the call, seq after it returned, task)
+  let pushes: Arc<Mutex<Vec<(i64, u64, u64, usize)>>> = Arc::new(Mutex::new(Vec::new()));
+  let sbj_cell: Arc<Mutex<Option<subjects::Subject<'static, Val>>>> = Arc::new(Mutex::new(None));
+  {
+    let (sc, pu, rd) = (sbj_cell.clone(), pushes.clone(), reenter_do.clone());
+    let seen = Arc::new(Mutex::new(0i64));
+    rec.hook = Some(Arc::new(move |ev: &Ev| {
+      if !matches!(ev, Ev::Next(_)) {
+        return;
+      }
+      let k = {
+        let mut s = seen.lock().unwrap();
+        *s += 1;
+        *s - 1
+      };
+      if k == reenter_at {
+        let sb = sc.lock().unwrap().clone();
+        if let Some(sb) = sb {
+          let a = rt::seq();
+          if rd == "emit" {
+            sb.next(Val::Int(EXTRA));
+          } else {
+            sb.complete();
+          }
+          let b = rt::seq();
+          pu.lock().unwrap().push((if rd == "emit" { EXTRA } else { -1 }, a, b, rt::task_id().unwrap_or(0)));
+        }
+      }
+    }));
+  }
+  let (rec2, sc2, pu2, shape2, script2) = (rec.clone(), sbj_cell.clone(), pushes.clone(), shape.to_vec(), script.to_vec());
+  let res = rt::run(cfg, move || {
+    let sbj = subjects::Subject::<Val>::new();
+    *sc2.lock().unwrap() = Some(sbj.clone());
+    let mut o = sbj.observable();
+    for st in &shape2 {
+      o = match st.as_str() {
+        "oo" => o.observe_on(schedulers::new_thread_scheduler()),
+        _ => o.map(|v: Val| Val::Int(v.int() + 100)),
+      };
+    }
+    let sub = rec2.subscribe(&o);
+    for st in &script2 {
+      let a = rt::seq();
+      match st {
+        Step::N(x) => sbj.next(Val::Int(*x)),
+        Step::E(e) => sbj.error(mk_err(*e)),
+        Step::C => sbj.complete(),
+      }
+      let b = rt::seq();
+      pu2.lock().unwrap().push((if let Step::N(x) = st { *x } else { -1 }, a, b, 0));
+    }
+    rt::quiesce();
+    sub.unsubscribe();
+    *sc2.lock().unwrap() = None;
+    rt::quiesce();
+  });
+  let blame = "observe_on";
+  let evs = rec.events();
+  let pushes = pushes.lock().unwrap().clone();
+  let mut v = Vec::new();
+  let mut history: Vec<String> = Vec::new();
+  for (x, a, b, t) in &pushes {
+    history.push(format!("{:>4}..{:<4} t{} pushes {}", a, b, t, if *x < 0 { "terminal".to_string() } else { format!("n{}", x) }));
+  }
+  for r in &evs {
+    history.push(format!("{:>4}..{:<4} t{} subscriber gets {}", r.seq_in, r.seq_out, r.task, r.ev.show()));
+  }
+  history.sort();
+  let library_tasks: Vec<usize> = res.tasks.iter().filter(|t| t.origin == Origin::Library).map(|t| t.id).collect();
+  match &res.outcome {
+    rt::Outcome::Ok | rt::Outcome::Leak { .. } => {}
+    _ => v.push(outcome_violation(&res, blame).unwrap()),
+  }
+  if v.is_empty() {
+    let shown = evs.iter().map(|r| r.ev.show()).collect::<Vec<_>>().join(" ");
+    let got_items: Vec<i64> = evs.iter().filter_map(|r| if let Ev::Next(x) = &r.ev { Some(x.int() - 100 * n_maps) } else { None }).collect();
+    // the first terminal call (by its start stamp) is the one that counts
+    let first_term = pushes.iter().filter(|p| p.0 < 0).map(|p| (p.1, p.2)).min();
+    let mine: Vec<i64> = got_items.iter().filter(|x| **x != EXTRA).copied().collect();
+    let main_items: Vec<i64> = script.iter().filter_map(|s| if let Step::N(x) = s { Some(*x) } else { None }).collect();
+    // the caller's items: in the caller's order, each at most once
+    let mut it = main_items.iter();
+    if !mine.iter().all(|g| it.any(|x| x == g)) {
+      v.push(Violation::new("events-differ", blame, format!("the caller pushed {:?}; the subscriber received [{}] (order changed or an item twice)", main_items, shown)));
+    }
+    for (x, a, b, _) in &pushes {
+      if *x < 0 {
+        continue;
+      }
+      let delivered = got_items.iter().filter(|g| **g == *x).count();
+      let must = first_term.map_or(true, |(ts, _)| *b < ts);
+      let must_not = first_term.map_or(false, |(_, te)| *a > te);
+      if delivered > 1 || (must && delivered == 0) || (must_not && delivered > 0) {
+        let class = if delivered == 0 { "events-lost" } else { "events-differ" };
+        v.push(Violation::new(class, blame, format!("item {} was pushed during {}..{} (first terminal call: {:?}) and delivered {} time(s): [{}]", x, a, b, first_term, delivered, shown)));
+      }
+    }
+    // the item fed from inside a callback comes after the item whose callback fed it
+    if let (Some(pe), Some(pa)) = (got_items.iter().position(|x| *x == EXTRA), got_items.iter().position(|x| *x != EXTRA)) {
+      let feeder = got_items.iter().filter(|x| **x != EXTRA).nth(reenter_at as usize).and_then(|f| got_items.iter().position(|x| x == f));
+      let _ = pa;
+      if feeder.map_or(false, |f| pe < f) {
+        v.push(Violation::new("events-differ", blame, format!("the item fed from inside a callback was delivered before the item whose callback fed it: [{}]", shown)));
+      }
+    }
+    // terminal: exactly one if a terminal call happened, and it is the last event
+    let terms = evs.iter().filter(|r| r.ev.is_terminal()).count();
+    if first_term.is_some() && (terms != 1 || !evs.last().map_or(false, |r| r.ev.is_terminal())) {
+      v.push(Violation::new(if terms == 0 { "events-lost" } else { "events-differ" }, blame, format!("a terminal was signalled; the subscriber received [{}]", shown)));
+    }
+    if first_term.is_none() && terms > 0 {
+      v.push(Violation::new("events-differ", blame, format!("no terminal was signalled; the subscriber received [{}]", shown)));
+    }
+    // one callback at a time (a nested callback counts as two at once)
+    let mut iv: Vec<(u64, u64)> = evs.iter().map(|r| (r.seq_in, r.seq_out)).collect();
+    iv.sort();
+    for w2 in iv.windows(2) {
+      if w2[0].1 > w2[1].0 {
+        v.push(Violation::new("callbacks-overlap", blame, format!("callback [{}..{}] overlaps callback [{}..{}]: [{}]", w2[0].0, w2[0].1, w2[1].0, w2[1].1, shown)));
+      }
+    }
+    let cb_tasks: std::collections::BTreeSet<usize> = evs.iter().map(|r| r.task).collect();
+    if cb_tasks.len() > 1 || cb_tasks.iter().any(|t| !library_tasks.contains(t)) {
+      v.push(Violation::new("wrong-thread", blame, format!("callbacks ran on tasks {:?} (scheduler workers {:?})", cb_tasks, library_tasks)));
+    }
+  }
+  let mut fp = 0u64;
+  for h in &history {
+    fp = fp.wrapping_mul(0x100000001B3) ^ fnv(h.split_whitespace().skip(1).collect::<Vec<_>>().join(" ").as_str());
+  }
+  let reach = vec![("c09-reentrant-push-happened", pushes.iter().any(|p| p.3 != 0) as u64)];
+  RunOut { res, violations: v, fingerprint: fp, invalid: false, reach, history }
 }
